@@ -119,6 +119,15 @@ def _(v):
     return call(lambda: (estimate_mean(Y, sd), estimate_varatio(Y, sd)), Y=Y, sd=sd)
 
 
+@probe("onesample.estimate_varatio(df)")
+def _(v):
+    from nipy.algorithms.statistics.onesample import estimate_varatio
+    r = rs(v)
+    Y = lay(r.randn(4, v["n"]), v["layout"]); sd = lay(1 + r.rand(4, v["n"]), v["layout"])
+    df = lay(np.array([3., 5., 2., 30.]), v["layout"])
+    return call(lambda: estimate_varatio(Y, sd, df=df, niter=3), Y=Y, sd=sd, df=df)
+
+
 @probe("mixed_effects_stat.one_sample_ttest")
 def _(v):
     from nipy.algorithms.statistics.mixed_effects_stat import one_sample_ttest
